@@ -1,11 +1,12 @@
 """C05: memory safety, inputs untouched, termination - decided in every state of the IR abstract machine."""
 from . import _pipe
 
-RULE = ("every kernel of the pipeline x inputs incl. zero-sized dimensions and empty levels x initial capacities "
+RULE = ("evaluate kernels: every kernel of the pipeline x inputs incl. zero-sized dimensions and empty levels x initial capacities "
         "{1,2} (thorough {1,2,3,2^20}): every load/store/realloc checked against the heap model in every state "
         "(bounds, initialisation, liveness, ownership, int32 range, step budget); at the end: arrays handed back are "
         "live, long enough and initialised, nothing kernel-allocated is unreachable. Native crashes of the wide pass "
-        "are taken back to the machine. Non-trivial/distinct as for C01.")
+        "are taken back to the machine. Assemble and compute kernels: the faults of the C04 histories "
+        "(assemble; freeze; compute; re-value; compute) on the same machine. Non-trivial/distinct as for C01.")
 
 
 def run(tier, seed):
@@ -36,6 +37,25 @@ def run(tier, seed):
     out["coverage"]["subgraph_lattices_compared"] = st.get("subgraph_lattices_compared", 0)
     out["coverage"]["subgraph_deviations"] = st.get("subgraph_deviations", 0)
     out["coverage"]["structure_witness_kernels"] = st.get("witness_kernels", 0)
+    # the assemble and compute kernels: memory faults found by the C04 histories (same machine, structure frozen for
+    # compute) are violations of this property too
+    from . import c04
+
+    h = c04.run(tier, seed)
+    n_hist = 0
+    for v in h["violations"]:
+        clause = (v.get("key") or {}).get("clause", "")
+        if clause.startswith("fault-") or clause.startswith("native-history-crashed"):
+            vv = dict(v)
+            vv["key"] = dict(v["key"], stage="history")
+            vv["what"] = "[assemble/compute history] " + v["what"]
+            vv["check"] = "C05"
+            out["violations"].append(vv)
+            n_hist += 1
+    out["coverage"]["assemble_compute_histories"] = h["coverage"].get("evaluations", 0)
+    out["coverage"]["assemble_compute_kernels"] = h["coverage"].get("kernels", 0)
+    out["coverage"]["states"] += h["coverage"].get("states", 0)
+    out["coverage"]["transitions"] += h["coverage"].get("transitions", 0)
     faults = {}
     for x in out["recs"]:
         faults[x["v"]["c05"]] = faults.get(x["v"]["c05"], 0) + 1
